@@ -1,6 +1,7 @@
 package main
 
 import (
+	"fmt"
 	"go/token"
 
 	"golang.org/x/tools/go/ssa"
@@ -186,7 +187,7 @@ func runC17(c *Ctx) {
 	}
 
 	// ---- R5 ------------------------------------------------------------------------------------
-	c.Rule("R5", "binding writers: SetConsumerClientId only from launch (CreateConsumerClient / MakeConsumerGenesis); channel indexes only from SetConsumerChain; all removed only by DeleteConsumerChain", 6)
+	c.Rule("R5", "binding writers: SetConsumerClientId only from launch (CreateConsumerClient / MakeConsumerGenesis); channel indexes only from SetConsumerChain; all removed only by DeleteConsumerChain; genesis restores client and channel bindings in their roles (provider: consumer states; consumer: provider client/channel, none for a new chain)", 6)
 	c.OnlyCalledFrom("pk.Keeper.SetConsumerClientId", "pk.Keeper.CreateConsumerClient", "pk.Keeper.MakeConsumerGenesis")
 	c.OnlyCalledFrom("pk.Keeper.SetConsumerIdToChannelId", "pk.Keeper.SetConsumerChain")
 	c.OnlyCalledFrom("pk.Keeper.SetChannelToConsumerId", "pk.Keeper.SetConsumerChain")
@@ -196,6 +197,36 @@ func runC17(c *Ctx) {
 	c.OnlyCalledFrom("pk.Keeper.DeleteChannelIdToConsumerId", "pk.Keeper.DeleteConsumerChain")
 	c.OnlyCalledFrom("pk.Keeper.CreateConsumerClient", "pk.Keeper.LaunchConsumer")
 	c.OnlyCalledFrom("pk.Keeper.MakeConsumerGenesis", "pk.Keeper.LaunchConsumer")
+
+	// genesis restores the bindings in their roles (all arguments are strings)
+	if f := c.Fn("pk.Keeper.InitGenesis"); f != nil {
+		cs := PElemOf(PField(PParam("genState"), "ConsumerStates"))
+		c.ArgRoles(f, "pk.Keeper.SetConsumerClientId", "genesis-client-binding", "SetConsumerClientId(cs.ChainId, cs.ClientId)", PField(cs, "ChainId"), PField(cs, "ClientId"))
+		c.ArgRoles(f, "pk.Keeper.SetChannelToConsumerId", "genesis-channel-binding", "SetChannelToConsumerId(cs.ChannelId, cs.ChainId)", PField(cs, "ChannelId"), PField(cs, "ChainId"))
+		c.ArgRoles(f, "pk.Keeper.SetConsumerIdToChannelId", "genesis-channel-binding-reverse", "SetConsumerIdToChannelId(cs.ChainId, cs.ChannelId)", PField(cs, "ChainId"), PField(cs, "ChannelId"))
+	}
+	if f := c.Fn("ck.Keeper.InitGenesis"); f != nil {
+		newChain := ABool("state.NewChain", PField(PParam("state"), "NewChain"))
+		for _, set := range Calls(f, false, "ck.Keeper.SetProviderChannel") {
+			c.Check(PField(PParam("state"), "ProviderChannelId")(arg(set, 1)), fk(f, "genesis-provider-channel"), set, "SetProviderChannel(state.ProviderChannelId); found "+describe(arg(set, 1)))
+			c.UnreachableWhen(set, fk(f, "new-chain-has-no-channel"), T(newChain))
+		}
+		n := 0
+		for _, set := range Calls(f, false, "ck.Keeper.SetProviderClientID") {
+			n++
+			a := arg(set, 1)
+			ok := PField(PParam("state"), "ProviderClientId")(a) || PCall("ccv.ClientKeeper.CreateClient", 0, nil)(a) || PField(PCall("ccv.ConnectionKeeper.GetConnection", 0, nil, nil, PField(PParam("state"), "ConnectionId")), "ClientId")(a)
+			if !ok {
+				// the new-chain branch joins both sources in one variable
+				ok = true
+				for _, r := range roots(a) {
+					ok = ok && (PCall("ccv.ClientKeeper.CreateClient", 0, nil)(r) || PField(PCall("ccv.ConnectionKeeper.GetConnection", 0, nil, nil, PField(PParam("state"), "ConnectionId")), "ClientId")(r))
+				}
+			}
+			c.Check(ok, fk(f, "genesis-provider-client"), set, "provider client := the client created at genesis, the client of state.ConnectionId, or state.ProviderClientId on restart; found "+describe(a))
+		}
+		c.Check(n == 2, fk(f, "genesis-provider-client", "census"), f, fmt.Sprintf("%d provider-client writes at genesis (new chain, restart)", n))
+	}
 
 	// ---- R6 ------------------------------------------------------------------------------------
 	c.Rule("R6", "injective client binding (no two consumers share a client): see C13.R5; here: both binding sites bind the id being launched, and MakeConsumerGenesis additionally requires the connection's client to carry the consumer's chain id", 3)
